@@ -442,8 +442,9 @@ def run_check(modname: str, tier: str, seed: int, replay_path: Optional[str]) ->
     }
     if errors:
         ev["coverage"]["harness_errors"] = [e[-1500:] for e in errors[:4]]
-    os.makedirs(os.path.join(VERIF_DIR, "evidence"), exist_ok=True)
-    with open(os.path.join(VERIF_DIR, "evidence", f"{prop}.json"), "w") as fh:
+    ev_dir = os.environ.get("VERIF_EVIDENCE_DIR") or os.path.join(VERIF_DIR, "evidence")  # override: sensitivity runs only
+    os.makedirs(ev_dir, exist_ok=True)
+    with open(os.path.join(ev_dir, f"{prop}.json"), "w") as fh:
         json.dump(ev, fh, indent=1, default=repr, sort_keys=True)
         fh.write("\n")
 
